@@ -7,14 +7,19 @@ import (
 	"os"
 	"os/exec"
 	"strings"
+	"time"
 )
 
 // Driver talks to the compiled Lean model over the line protocol.
 type Driver struct {
-	cmd *exec.Cmd
-	in  io.WriteCloser
-	out *bufio.Reader
-	N   int // lines exchanged
+	cmd  *exec.Cmd
+	in   io.WriteCloser
+	out  *bufio.Reader
+	path string
+	N    int // lines exchanged
+	// Timeout bounds one Ask (0 = 60 s). On expiry the driver process is killed and restarted and
+	// Ask answers "model-timeout".
+	Timeout time.Duration
 }
 
 // StartDriver launches the Lean driver binary. path=="" returns nil (the
@@ -26,20 +31,29 @@ func StartDriver(path string) (*Driver, error) {
 	if _, err := os.Stat(path); err != nil {
 		return nil, err
 	}
-	cmd := exec.Command(path)
+	d := &Driver{path: path}
+	if err := d.start(); err != nil {
+		return nil, err
+	}
+	return d, nil
+}
+
+func (d *Driver) start() error {
+	cmd := exec.Command(d.path)
 	in, err := cmd.StdinPipe()
 	if err != nil {
-		return nil, err
+		return err
 	}
 	out, err := cmd.StdoutPipe()
 	if err != nil {
-		return nil, err
+		return err
 	}
 	cmd.Stderr = os.Stderr
 	if err := cmd.Start(); err != nil {
-		return nil, err
+		return err
 	}
-	return &Driver{cmd: cmd, in: in, out: bufio.NewReaderSize(out, 1<<20)}, nil
+	d.cmd, d.in, d.out = cmd, in, bufio.NewReaderSize(out, 1<<20)
+	return nil
 }
 
 // Ask sends one line and returns the model's answer line.
@@ -51,11 +65,34 @@ func (d *Driver) Ask(line string) (string, error) {
 		return "", err
 	}
 	d.N++
-	ans, err := d.out.ReadString('\n')
-	if err != nil {
-		return "", fmt.Errorf("driver died: %v", err)
+	type reply struct {
+		s   string
+		err error
 	}
-	return strings.TrimRight(ans, "\n"), nil
+	ch := make(chan reply, 1)
+	out := d.out
+	go func() {
+		ans, err := out.ReadString('\n')
+		ch <- reply{ans, err}
+	}()
+	to := d.Timeout
+	if to == 0 {
+		to = 60 * time.Second
+	}
+	select {
+	case r := <-ch:
+		if r.err != nil {
+			return "", fmt.Errorf("driver died: %v", r.err)
+		}
+		return strings.TrimRight(r.s, "\n"), nil
+	case <-time.After(to):
+		_ = d.cmd.Process.Kill()
+		_ = d.cmd.Wait()
+		if err := d.start(); err != nil {
+			return "", err
+		}
+		return "model-timeout", nil
+	}
 }
 
 // Batch sends many lines (pipelined in chunks) and returns the answers.
